@@ -152,6 +152,16 @@ Theorem C10_process_file_never_raises : forall (rows : list row) perm1 perm2,
 Proof. exact process_file_never_raises. Qed.
 Print Assumptions C10_process_file_never_raises.
 
+(* Each file's history starts with no scope open: validating several files one after the
+   other with the SAME SpreadsheetValidator object gives, for every file, the outcome of
+   that file alone (validate() makes a fresh OnsetValidator; scopes an earlier file left
+   open are not carried over). *)
+Theorem C10_files_independent : forall fixed (files : list (list row)) sv i rows,
+  nth_error files i = Some rows ->
+  nth_error (validate_seq fixed sv files) i = Some (process_file fixed None None rows).
+Proof. exact files_independent. Qed.
+Print Assumptions C10_files_independent.
+
 (* effective_time, FULL statement, for ALL time-ordered files (induction; replaces the
    former bounded kernel check): rows sharing an onset time and groups shifted by a
    Delay tag take effect at their effective time -- the pipeline processes exactly one
@@ -179,6 +189,14 @@ Example C10_nonvacuous_file :
              (2, [mkIssue InsetBeforeOnset 0 nB1; mkIssue SameDefsOneRow 1 nB1; mkIssue OffsetBeforeOnset 2 nA])])
   /\ process_file true None None ex_rows = Ok (spec_file ex_rows).
 Proof. exact ex_rows_run. Qed.
+
+(* the reset is not vacuous: from a validator still holding scope "a", an unmatched
+   Offset of a would go unreported *)
+Example C10_nonvacuous_reset :
+  let rows := [mkRow 1 false [(None, Some (mkMarker Offset [[97%N]]))]] in
+  process_file true None None rows = Ok ([], [(0, [mkIssue OffsetBeforeOnset 0 [97%N]])]) /\
+  process_file_from true None None [[97%N]] rows = Ok ([], [(0, [])]).
+Proof. exact carried_scope_would_hide. Qed.
 
 (* ------------------------------------------------------------------ *)
 (* RECORD OF THE REPAIRED DEFECT C10-F1 (unrepaired code: fixed = false) *)
